@@ -2,7 +2,10 @@
 // scripted, call-logging, fault-injecting probe reader/writer used for C10/C15/C16.
 #pragma once
 #include <functional>
+#include <fstream>
+#include <iterator>
 #include <sstream>
+#include <unistd.h>
 #include <string>
 #include <vector>
 
@@ -103,6 +106,34 @@ struct WFd {
   std::vector<uint8_t> bytes() const { return fakefd_get(fd)->data; }
   bool intact() const { return true; }
 };
+// file streams (thorough tier): real files under $VERIF_ROOT/build/tmp; seeking and EOF behave differently from
+// string streams (a seek past the end of a file succeeds)
+inline std::string tmp_path(const char* tag) {
+  static unsigned long counter = 0;
+  const char* root = getenv("VERIF_ROOT");
+  std::string dir = std::string(root ? root : ".") + "/build/tmp";
+  static bool made = false;
+  if (!made) { std::string cmd = "mkdir -p '" + dir + "'"; if (system(cmd.c_str())) {} made = true; }
+  return dir + "/" + tag + "_" + std::to_string((long)getpid()) + "_" + std::to_string(counter++) + ".bin";
+}
+struct WFile {
+  static const char* name() { return "StreamWriter<ofstream>"; }
+  static constexpr int lacks = CapHandle;
+  static constexpr bool checked = false;
+  std::string path;
+  nop::StreamWriter<std::ofstream> w;
+  explicit WFile(size_t) : path(tmp_path("w")), w(path, std::ios::binary | std::ios::trunc) {}
+  ~WFile() { w.stream().close(); remove(path.c_str()); }
+  template <class T> St write(const T& v) { nop::Serializer<nop::StreamWriter<std::ofstream>*> s{&w}; return s.Write(v); }
+  std::vector<uint8_t> slurp() const {
+    const_cast<WFile*>(this)->w.stream().flush();
+    std::ifstream in(path, std::ios::binary);
+    return std::vector<uint8_t>((std::istreambuf_iterator<char>(in)), std::istreambuf_iterator<char>());
+  }
+  size_t size() const { return slurp().size(); }
+  std::vector<uint8_t> bytes() const { return slurp(); }
+  bool intact() const { return true; }
+};
 // BoundedWriter over an inner rig: limit = cap, inner buffer larger (so only the bound can refuse)
 template <class Inner>
 struct WBoundedLimit {
@@ -169,6 +200,30 @@ struct RStr {
   size_t consumed() {
     auto& st = r.stream();
     if (!st.good()) { st.clear(); }
+    std::streamoff p = st.tellg();
+    return p < 0 ? len : (size_t)p;
+  }
+  static int trunc_error() { return (int)nop::ErrorStatus::StreamError; }
+};
+struct RFile {
+  static const char* name() { return "StreamReader<ifstream>"; }
+  static const char* family() { return "stream"; }
+  static constexpr int lacks = CapHandle;
+  std::string path;
+  struct Prep {
+    Prep(const std::string& p, const uint8_t* d, size_t n) {
+      std::ofstream out(p, std::ios::binary | std::ios::trunc);
+      if (n) out.write(reinterpret_cast<const char*>(d), (std::streamsize)n);
+    }
+  } prep;
+  nop::StreamReader<std::ifstream> r;
+  size_t len;
+  RFile(const uint8_t* d, size_t n) : path(tmp_path("r")), prep(path, d, n), r(path, std::ios::binary), len(n) {}
+  ~RFile() { r.stream().close(); remove(path.c_str()); }
+  template <class T> St read(T* v) { nop::Deserializer<nop::StreamReader<std::ifstream>*> s{&r}; return s.Read(v); }
+  size_t consumed() {
+    auto& st = r.stream();
+    if (!st.good()) st.clear();
     std::streamoff p = st.tellg();
     return p < 0 ? len : (size_t)p;
   }
